@@ -106,6 +106,8 @@ def jARule (bp : Bool) : ARule → String
       ++ ",\"name\":" ++ jOptCps name ++ "}"
   | .namespace_ p u => "{\"k\":\"namespace\",\"pfx\":" ++ q (encCps p) ++ ",\"uri\":" ++ q (encCps u) ++ "}"
   | .charset e => "{\"k\":\"charset\",\"enc\":" ++ q (encCps e) ++ "}"
+  | .variables vs => "{\"k\":\"variables\",\"vars\":"
+      ++ jList (vs.map fun v => "{\"name\":" ++ q (encCps v.1) ++ ",\"value\":" ++ jToks bp v.2 ++ "}") ++ "}"
   | .other k => "{\"k\":\"other\",\"kind\":" ++ q (kindName k) ++ "}"
 def jARules (bp : Bool) : List ARule → String
   | [] => ""
@@ -363,16 +365,49 @@ def sxNs : SX → Option (SNs × WGap)
     | _, _, _, _, _, _ => none
   | _ => none
 
+def sxVarDecl : SX → Option SVarDecl
+  | .list [n, sp, g1, g2, v, g3] =>
+    match sxCps n, sxMask sp, sxGap g1, sxGap g2, sxToks v, sxGap g3 with
+    | some n, some sp, some g1, some g2, some v, some g3 => some ⟨n, sp, g1, g2, v, g3⟩
+    | _, _, _, _, _, _ => none
+  | _ => none
+
+def sxVarBlock : SX → Option SVarBlock
+  | .list [lead, .list items, last] =>
+    match sxGap lead, mapM? (fun x => match x with
+      | SX.list [d, g] => (match sxVarDecl d, sxGap g with
+        | some d, some g => some (d, g)
+        | _, _ => none)
+      | _ => none) items, (match last with
+      | .atom "none" => some none
+      | d => (sxVarDecl d).map some) with
+    | some lead, some items, some last => some ⟨lead, items, last⟩
+    | _, _, _ => none
+  | _ => none
+
+def sxVar : SX → Option (SVar × WGap)
+  | .list [.atom "comment", b, w] => match sxCps b, sxWGap w with
+    | some b, some w => some (.comment b, w)
+    | _, _ => none
+  | .list [.atom "unknown", t, w] => match sxToks t, sxWGap w with
+    | some t, some w => some (.unknown t, w)
+    | _, _ => none
+  | .list [.atom "variables", kw, g0, blk, w] =>
+    match sxMask kw, sxGap g0, sxVarBlock blk, sxWGap w with
+    | some kw, some g0, some blk, some w => some (.variables kw g0 blk, w)
+    | _, _, _, _ => none
+  | _ => none
+
 def sxSheet : List SX → Option SSheet
-  | [cs, lead, .list imps, .list nss, .list rules] =>
+  | [cs, lead, .list imps, .list nss, .list vars, .list rules] =>
     match (match cs with
       | .atom "none" => some none
       | .list [qq, e] => (match sxQuote qq, sxCps e with
         | some qq, some e => some (some (qq, e))
         | _, _ => none)
-      | _ => none), sxWGap lead, mapM? sxImp imps, mapM? sxNs nss, sxRules rules with
-    | some cs, some lead, some imps, some nss, some rules => some ⟨cs, lead, imps, nss, rules⟩
-    | _, _, _, _, _ => none
+      | _ => none), sxWGap lead, mapM? sxImp imps, mapM? sxNs nss, mapM? sxVar vars, sxRules rules with
+    | some cs, some lead, some imps, some nss, some vars, some rules => some ⟨cs, lead, imps, nss, vars, rules⟩
+    | _, _, _, _, _, _ => none
   | _ => none
 
 /-- the oracle of the correspondence: selectors / values / media queries accepted, at-rules by their models -/
